@@ -41,14 +41,17 @@ CheckObs(S, id, o) ==
                 /\ Say(o.r.v.key_map_declared = a.key_map_used, id, "C12", "header.key_map", why)
                 /\ Say(o.r.v.value_map_declared = a.value_map_used, id, "C12", "header.value_map", why)
                 /\ Say(o.r.v.meta_ok, id, "C12", "header.user_meta", why)
-                /\ Say(o.r.v.keys_short, id, "C12", "layout.keys_or_values_not_shortened_as_declared", why))
+                /\ Say(o.r.v.keys_short, id, "C12", "layout.keys_or_values_not_shortened_as_declared", why)
+                /\ Say(o.r.v.args_same, id, "C12", "save.arguments_modified", why))
      [] o.q = "roundtrip" ->
           /\ Say(o.r.s = "ok", id, "C05", "roundtrip.status:" \o o.r.s, why)
           /\ (o.r.s = "ok" =>
                 /\ Say(o.r.v.canon = Canon(S), id, "C05", "roundtrip.content", why)
                 /\ Say(o.r.v.cls, id, "C05", "roundtrip.class", why)
                 /\ Say(o.r.v.meta_ok, id, "C05", "roundtrip.file_meta", why)
-                /\ Say(o.r.v.src_same, id, "C05", "roundtrip.source_changed", why))
+                /\ Say(o.r.v.src_same, id, "C05", "roundtrip.source_changed", why)
+                \* the option dicts belong to the caller (the same dict may be passed for the next tree)
+                /\ Say(o.r.v.args_same, id, "C05", "roundtrip.arguments_modified", why))
      [] o.q = "load_ext" ->
           IF a.expect = "ok"
           THEN /\ Say(o.r.s = "ok", id, "C12", "load_ext.status:" \o o.r.s, why)
